@@ -4,30 +4,11 @@
 package remote
 
 import (
-	"net"
-
 	"github.com/openebs/jiva/rpc"
-	"github.com/openebs/jiva/types"
-	"github.com/openebs/jiva/verifshim/vs"
 )
 
-// VerifEdNew builds a real *Remote around conn the way Factory.Create does after its REST calls: same channel
-// capacities, the rpc client shares the Remote's closeChan.
-func VerifEdNew(name string, conn net.Conn) (*Remote, *rpc.Client) {
-	r := &Remote{
-		Name:        name,
-		closeChan:   make(chan struct{}, 5),
-		monitorChan: make(types.MonitorChannel, 5),
-	}
-	c := rpc.NewClient(conn, r.closeChan)
-	r.IOs = c
-	return r, c
-}
-
-// VerifEdStartMonitor is Factory.Create's `go r.monitorPing(remote)`.
-func VerifEdStartMonitor(r *Remote, c *rpc.Client) {
-	vs.Go("r.monitorPing", func() { r.monitorPing(c) })
-}
+// VerifEdClient returns the rpc client Factory.Create put behind the Remote's data path.
+func VerifEdClient(r *Remote) *rpc.Client { return r.IOs.(*rpc.Client) }
 
 // VerifEdChanLens returns len(closeChan), len(monitorChan).
 func VerifEdChanLens(r *Remote) (int, int) { return len(r.closeChan), len(r.monitorChan) }
